@@ -5,7 +5,7 @@ class C02(Prop):
     pid = "C02"
     check_mod = "C02"
     drivers = [dict(pkg="internal/auth", test="TestVerifC02")]
-    n_quick = 600
+    n_quick = 640
     n_thorough = 10000
     shard = 75
     ready = True
@@ -15,29 +15,44 @@ class C02(Prop):
              "jwtClaims.UnmarshalJSON: the http method grants iff the request is excluded or the auth server answers 2xx to "
              "the POST whose JSON body is proved to decode to exactly the request's ten fields and the selected token; the jwt "
              "method grants iff excluded or the JWKS is available, a token is present, it verifies and its permission claim "
-             "(array, or string holding the array) grants the action on the path, as the token's subject; the token is the "
+             "(array, or string holding the array) grants the action on the path, as the token's subject; for ALL issuer/"
+             "audience settings (the option list authenticateJWT builds and golang-jwt's verifyIssuer/verifyAudience are "
+             "modelled, not oracle): the token's iss must BE a configured issuer and a configured audience must be AMONG "
+             "its aud, each setting enforced whatever the other is (C02_jwt_cfg_iff, _issuer_enforced, _audience_enforced, "
+             "_settings_restrict, C02_parser_opts); the token is the "
              "token field, else the password, else - RTSP/RTMP, or HTTP-based requests when enabled - the single 'token' else "
              "'jwt' query parameter. The model is tied to the code by running the real getToken and Manager.Authenticate "
              "against an in-process auth server (which records every body) and JWKS server; the boolean form of the property "
              "is evaluated on the observed result from what the driver knows by construction: the status it told the server "
              "to answer, where it put the token, and whether each token must verify (good key / tampered payload or signature "
-             "/ wrong key / unknown kid / alg none / HS256 with the public key / expired / not yet valid / wrong issuer / "
-             "wrong audience / claim missing, under another key, as string, garbage).",
-        note="Oracles: golang-jwt + keyfunc (signature, alg, exp/nbf, iss, aud) and encoding/json on the raw claim are not "
-             "modelled: their verdicts on each candidate token are shipped per case (computed by the real libraries with a "
-             "RegisteredClaims-typed claims value) and cross-checked against the by-construction verdicts through the "
-             "implementation's result. regexp is an oracle as in C01. A token without exp is accepted by the library default.",
+             "/ wrong key / unknown kid / alg none / HS256 with the public key / expired (also by seconds) / not yet valid "
+             "/ claim missing, under another key, as string, garbage), and from the iss and aud claims it wrote into the "
+             "token compared in Coq with the configured issuer/audience (absent, null, empty, equal, other, case variant, "
+             "longer, shorter, the other setting's value, ill-typed; aud as string or list with the match first/last/"
+             "middle/duplicated/absent).",
+        note="Oracles: golang-jwt + keyfunc WITHOUT parser options (signature, alg, exp/nbf, claim types; returns sub, iss, "
+             "aud) and encoding/json on the raw claim are not modelled: their verdicts on each candidate token are shipped "
+             "per case (computed by the real libraries with a RegisteredClaims-typed claims value) and cross-checked "
+             "against the by-construction verdicts through the implementation's result. The issuer/audience checks are "
+             "modelled and compared on every candidate token with the real library called with the options (lib_ok). "
+             "regexp is an oracle as in C01. A token without exp, or with iat in the future, is accepted (library default).",
         technique="Coq proof (case analysis of the decision functions; induction over query pieces and JSON members, using "
                   "Lib/Json's encoder/parser round trip) + correspondence via vm_compute")
     rule = ("25% getToken calls (token in field / password / token= / jwt= / duplicated / decoys of higher and lower precedence "
             "/ malformed queries / %-escaped by the driver; all six protocols and actions; flag on/off); 30% http-method calls "
             "(exclude lists with hits and near misses, 20 status codes 200..503 incl. 299/300, server down, 200 KiB error "
             "bodies, fields with HTML characters, quotes, control characters, ill-formed UTF-8, nil IP and ID); 45% jwt-method "
-            "calls (RS256/ES256 keys, 14 token kinds x 5 claim forms x issuer/audience settings, JWKS ok/down/garbage/empty, a "
-            "second real token as decoy, JWTInHTTPQuery nil/false/true). Non-trivial = all but token-less getToken calls; "
+            "calls (RS256/ES256 keys, 17 token kinds x 5 claim forms x issuer/audience settings none/issuer/audience/both with 4 "
+            "values each, JWKS ok/down/garbage/empty, a second real token as decoy, JWTInHTTPQuery nil/false/true); 40% of "
+            "the jwt calls are 'claims' scenarios visiting in turn EVERY cell of: both settings x 11 iss shapes (aud in order), "
+            "both settings x 20 aud shapes (iss in order), both wrong/absent/crossed, issuer only x 11 iss shapes + 4 aud "
+            "shapes that must not matter, audience only x 20 aud shapes + 4 iss shapes that must not matter (73 cells, each "
+            ">= 1 per quick run, class jwt-claims/<settings>/<varied claim>=<shape>), with a verifying token, a plain "
+            "granting claim and no exclusion so that iss/aud alone decide. Non-trivial = all but token-less getToken calls; "
             "distinct = distinct descriptions")
     trusted_base = ["Coq 8.16.1 kernel + VM (vm_compute for cases)", "in-package Go driver zz_verif_c02_test.go",
-                    "oracle: golang-jwt/jwt v5 ParseWithClaims + MicahParks/keyfunc on a RegisteredClaims value",
+                    "oracle: golang-jwt/jwt v5 ParseWithClaims without options + MicahParks/keyfunc on a RegisteredClaims value "
+                    "(Validator.verifyIssuer/verifyAudience are modelled and compared with the library per candidate token)",
                     "oracle: encoding/json / jsonwrapper on the raw permission claim", "oracle: Go regexp",
                     "oracle: net.IP.String, uuid.String", "Lib/Json.v model of encoding/json's string encoder (byte-compared "
                     "with every posted body)", "models Model/C02_AuthExt.v, Model/C01_Auth.v hand-written, tied by correspondence"]
